@@ -13,6 +13,7 @@ claims = {
  "C02": ("translation_validation", "differential execution of the two engines (interpreter.ExecuteRoute vs compiler.CompileRoute+vm.Execute) on symbolic-leaf program templates: for every operator, operand kind and payload within the bounds z3 decides whether the outcomes can differ", "section 4 C02"),
  "C03": ("translation_validation", "-O1/-O2 bytecode against -O0 bytecode on the VM for pointer-form AST templates with symbolic literals and a free variable of every runtime kind: z3 decides whether any literal value / runtime value makes the optimised program's outcome differ", "section 4 C03"),
  "C06": ("model_checking", "the real routeMiddlewares chain (authMiddleware, apiKeyMiddleware, denyAll, BasicAuthMiddleware with lockout) on symbolic credential sources and headers against an independently written credential predicate; lockout histories on a virtual clock", "section 4 C06"),
+ "C07": ("model_checking", "the real ExecuteRoute input binding (ApplyTypeDefaults, ValidateObjectAgainstTypeDef, CheckType), ProcessQueryParams and the return-type check on symbolic JSON-shaped values against a contract predicate written from the property statement", "section 4 C07"),
  "C10": ("model_checking", "symbolic byte buffers through the real bytecode loader and VM (step limit, allocation bound and termination as implicit assertions) and symbolic source bytes through the real lexer and parser", "section 4 C10"),
 }
 NA_REASON = {}
